@@ -60,6 +60,10 @@ def run_case(case, ctx):
 		def nm(i, for_list):
 			stem, ext, gz = names[i % len(names)]
 			return clean_name(stem, ext + ('.gz' if gz else ''), for_list), gz
+		QS_PATH, RS_PATH = os.path.join(d, 'q.gs'), os.path.join(d, 'r.gs')
+		if case.get('same_basename'):
+			os.makedirs(os.path.join(d, 'queries')); os.makedirs(os.path.join(d, 'refs'))
+			QS_PATH, RS_PATH = os.path.join(d, 'queries', 'signatures.gs'), os.path.join(d, 'refs', 'signatures.gs')
 		args = []
 		list_cwd = [None, None]    # working directory imposed by a list-file variant (at most one side), label
 		W = None
@@ -76,9 +80,9 @@ def run_case(case, ctx):
 		# queries
 		if qmode == 'qs':
 			qids = [1000 + 3 * i for i in range(nq)] if case['int_ids'] else [nm(i, False)[0] + f'#{i}' for i in range(nq)]
-			qsigs = H.write_sigfile(os.path.join(d, 'q.gs'), qgen, S[0], S[1], qids)
+			qsigs = H.write_sigfile(QS_PATH, qgen, S[0], S[1], qids)
 			qlabels = [str(x) for x in qids]
-			args += ['--qs', os.path.join(d, 'q.gs')]
+			args += ['--qs', QS_PATH]
 		else:
 			for_list = qmode == 'ql'
 			rel = []
@@ -106,9 +110,9 @@ def run_case(case, ctx):
 		# references
 		if rmode == 'rs':
 			rids = [5000 + 7 * i for i in range(nr)] if case['int_ids'] else [nm(i + 7, False)[0] + f'@{i}' for i in range(nr)]
-			rsigs = H.write_sigfile(os.path.join(d, 'r.gs'), rgen, S[0], S[1], rids)
+			rsigs = H.write_sigfile(RS_PATH, rgen, S[0], S[1], rids)
 			rlabels = [str(x) for x in rids]
-			args += ['--rs', os.path.join(d, 'r.gs')]
+			args += ['--rs', RS_PATH]
 		elif rmode == 'use_db':
 			from gambit.sigs.base import load_signatures
 			with load_signatures(W.gs_path) as dbs:
@@ -199,7 +203,7 @@ def run_case(case, ctx):
 			args2 = [a for a in args if a != '--square']
 			args2[args2.index(out)] = out2
 			if qmode == 'qs':
-				args2 += ['--rs', os.path.join(d, 'q.gs')]
+				args2 += ['--rs', QS_PATH]
 			elif qmode == 'q':
 				for p in qpaths:
 					args2 += ['-r', p]
@@ -265,6 +269,7 @@ def gen_case(draw, tier):
 		'list_cwd': draw(st.sampled_from([None, 'decoy', None, 'implicit'])),
 		'softmask': draw(st.sampled_from([None, 5, None, 13])),
 		'warmup': draw(st.sampled_from([False, True, False])),
+		'same_basename': draw(st.sampled_from([False, True, False])),
 	}
 	if rmode == 'use_db':
 		case['world'] = draw(Wd.world(max_refs=4, min_refs=1, max_queries=1, nasty_names=False))
